@@ -575,6 +575,8 @@ class Runner:
             self.tags.append("insert:ragged")
         expect = [tuple(r.get(c, M) for c in cols) + tuple(M for _ in allcols[len(cols):]) for r in [dict(zip(cols, x)) for x in rows]]
         expect += [tuple(r.get(c, M) for c in allcols) for r in newrows]
+        if not allcols:
+            expect = []          # a table without any column has nothing to show a row with
         try:
             r = t.insert(payload)
         except Exception as e:  # noqa
